@@ -516,6 +516,28 @@ def NEGATED(p):
     return p._Class__is_negated
 
 
+_TV_UNIVERSE = None
+
+
+def TV(text):
+    """the code points a bracket text lists (for '[^...]' the excluded ones), as `re` reads it - over all code points"""
+    import re
+    global _TV_UNIVERSE
+    if _TV_UNIVERSE is None:
+        _TV_UNIVERSE = "".join(chr(c) for c in range(0x110000) if not 0xD800 <= c <= 0xDFFF)
+    if text == ".":
+        return {ord(c) for c in _TV_UNIVERSE}
+    body = text[2:-1] if text.startswith("[^") else text[1:-1]
+    if body == "":
+        return set()
+    return {ord(c) for c in re.findall("[" + body + "]", _TV_UNIVERSE, re.S)}
+
+
+def ISANY(x):
+    import pregex.core.classes as cl
+    return isinstance(x, cl.Any)
+
+
 def ISCLS(x):
     import pregex.core.classes as cl
     return isinstance(x, getattr(cl, "__Class"))
